@@ -7,6 +7,14 @@ receiver-model parameters, with the full P_avg ladder at every lattice point, fo
 `average_voltages`, `noise_variances` and `utils.theory_BER`; and a small product for the cross-device
 clause (variances captured from the RNG requests of `PD`, ASE scale captured from `EDFA`).
 
+Hardening pass (input classes, see notes "Hardening pass"): a common scale factor 1e-12 .. 1e6 on (mu0, mu, s0, s1);
+offsets mu0 of both signs up to 1000; vectors of length 1, 2-D, spread over 15 orders of magnitude, read-only, one
+object passed twice; M held in numpy integer types; the receiver lattice carries two more axes (type form of every
+numeric argument, type of M), M = 2 and 256, five fixed thresholds incl. next to both edges of (0, 1), and feeds the
+helpers' results on to the slot-level formulas / estimators ("chain"); `receiver-vectors`: utils.theory_BER vectorised
+over every argument, alone / with P_avg / broadcast; `forms`: integer / numpy / 0-d / float32 operands, containers,
+documented defaults, keyword vs positional forms, undocumented spellings (either rejected or the same value).
+
 The reference model below is written from the property text with scipy.special only; it shares no code with
 the library.  Tolerances: see `/verif/notes/C13.md` (every one is a rounding bound, the 1000/5000-point
 threshold grid band stated by the property, or quad's documented epsabs).
@@ -1513,7 +1521,11 @@ def run(ctx):
              f'[OOK | PPM M in {MS} x (hard, soft)] for ook/ppm.theory_BER incl. vector calls; (2) the same product x offsets mu0 in {OFFSETS} '
              f'for THRESHOLD_EST, BER_analizer("estimator") and utils.optimum_threshold; (3) receiver model: every point within {k} deviations of two '
              f'baselines (unamplified / amplified G=20 dB, NF=5 dB) over the axes {{{", ".join(f"{a}:{len(v)}" for a, v in AXES.items())}}} with the full '
-             f'P_avg ladder {P_LADDER} at each point; (4) PD / EDFA noise scales captured from the scripted RNG over a full product of r, R_L, T, Fn, P_avg, ER, BW')
+             f'P_avg ladder {P_LADDER} at each point, fixed thresholds {THRESHOLDS}, and the helper results chained into the slot-level formulas; '
+             f'(4) PD / EDFA noise scales captured from the scripted RNG over a full product of r, R_L, T, Fn, P_avg, ER, BW; '
+             f'(1,2) also at the common scales {scales(tier)} on a slice of the product; (5) utils.theory_BER vectorised over each of {VEC_PARAMS} at every point within '
+             f'{1 if ctx.quick else 2} deviation(s); (6) type forms {SCALAR_FORMS}, containers, documented defaults, keyword/positional forms and spellings on '
+             f'{len(FORM_TUPLES)} integer-valued (mu0, d, s0, s1) x M in {FORM_MS} and on 2 x {len(MODS)} receiver points; (7) ambient grid: {len(AMBIENT)} gv configurations')
     ctx.assume('scipy.special.erfc/log_ndtr, scipy.integrate.quad (reference, epsrel 1e-10) and scipy.constants are correct; numpy.random.normal(0, s) has variance s^2 '
                '(only the requested scale is observed); the continuum quantifiers are covered at the listed grid points only')
     for c in REGRESS:
@@ -1536,4 +1548,5 @@ def run(ctx):
     ctx.pmap('receiver-vectors', rxvec_case, rxvec_cases(tier), horizon=120)
     ctx.pmap('forms', forms_case, forms_cases(), horizon=120)
     ctx.pmap('ambient-gv', ambient_case, ambient_cases(), horizon=120)
-    print(f'[C13] wall per part: formulas {t1-t0:.1f}s estimators {t2-t1:.1f}s receiver {t3-t2:.1f}s devices {t4-t3:.1f}s', flush=True)
+    t5 = time.time()
+    print(f'[C13] wall per part: formulas {t1-t0:.1f}s estimators {t2-t1:.1f}s receiver {t3-t2:.1f}s devices {t4-t3:.1f}s vectors+forms+ambient {t5-t4:.1f}s', flush=True)
